@@ -58,12 +58,13 @@ func c02ops() []c02op {
 		{"concat-empty-first", []int{mSeq}, toL, func(a []string, c int) string { return f("(concat () %s [%d])", a[0], c) }, nil},
 		{"apply-concat-empty-first", []int{mSeq}, toL, func(a []string, c int) string { return f("(apply concat (list (list) %s (list %d)))", a[0], c) }, nil},
 		{"swap-keeps-rest-args-1", nil, func([]int) int { return kL }, func(a []string, c int) string {
-			return f("(do (swap! at1 (fn [old & evs] evs) %d %d) (deref at1))", c, c+1)
+			return f("(do (swap! at1 (fn [old & evs] (keep! evs) evs) %d %d) (deref at1))", c, c+1)
 		}, nil},
 		{"swap-keeps-rest-args-2", nil, func([]int) int { return kL }, func(a []string, c int) string {
-			return f("(do (swap! at2 (fn [old & evs] evs) %d %d) (deref at2))", c, c+1)
+			return f("(do (swap! at2 (fn [old & evs] (keep! evs) evs) %d %d) (deref at2))", c, c+1)
 		}, nil},
-		{"map-rest-fn", []int{mSeq}, toL, func(a []string, c int) string { return f("(map (fn [& xs] xs) %s)", a[0]) }, nil},
+		{"map-rest-fn", []int{mSeq}, toL, func(a []string, c int) string { return f("(map (fn [& xs] (keep! xs) xs) %s)", a[0]) }, nil},
+		{"apply-rest-fn", []int{mSeq}, toL, func(a []string, c int) string { return f("(apply (fn [x & xs] (keep! xs) xs) %d %s)", c, a[0]) }, nil},
 		{"cons", []int{mSeq}, toL, func(a []string, c int) string { return f("(cons %d %s)", c, a[0]) }, nil},
 		{"assoc-vec", []int{mV}, same, func(a []string, c int) string { return f("(assoc %s 0 %d)", a[0], c) }, nil},
 		{"assoc-map", []int{mM}, same, func(a []string, c int) string { return f("(assoc %s :a %d :c%d %d)", a[0], c, c, c) }, nil},
@@ -200,6 +201,23 @@ type c02run struct {
 	text  []string
 }
 
+// c02kept: values that user code received during an operation and kept (the keep! builtin):
+// each with its canonical form at that moment. They are "captured" values in the property's
+// sense and are re-inspected after every step like the bindings.
+type c02keptVal struct {
+	v    types.MalType
+	snap string
+}
+
+var c02kept []c02keptVal
+
+func c02installKeep(base types.EnvType) {
+	call.CallOverrideFN(base, "keep!", func(v types.MalType) (types.MalType, error) {
+		c02kept = append(c02kept, c02keptVal{v, model.FromImpl(v).String()})
+		return nil, nil
+	})
+}
+
 func (c *c02run) canon(name string) string {
 	v, err := c.scope.Get(types.Symbol{Val: name})
 	if err != nil {
@@ -213,6 +231,7 @@ func (c *c02run) start() {
 	c.names = append([]string{}, c02seedNames...)
 	c.kinds = append([]int{}, c02seedKinds...)
 	c.snap, c.made, c.text = nil, nil, nil
+	c02kept = nil
 	for i, s := range c02seedText {
 		if _, err, p := lx.Eval(nil, lx.MustRead(s), c.scope); err != nil || p != nil {
 			panic(fmt.Sprint("c02 seed failed: ", s, err, p))
@@ -259,6 +278,12 @@ func (c *c02run) apply(st c02step, r *vf.Rec) (sig, detail string) {
 				fmt.Sprintf("after %s, %s changed from %s to %s\nhistory:\n  %s", stepText, n, c.snap[i], now, strings.Join(c.text, "\n  "))
 		}
 	}
+	for _, kv := range c02kept {
+		if now := model.FromImpl(kv.v).String(); now != kv.snap {
+			return fmt.Sprintf("%s changed a value that a function had received and kept", op.name),
+				fmt.Sprintf("after %s, a kept argument list changed from %s to %s\nhistory:\n  %s", stepText, kv.snap, now, strings.Join(c.text, "\n  "))
+		}
+	}
 	c.names = append(c.names, name)
 	c.kinds = append(c.kinds, k)
 	c.snap = append(c.snap, c.canon(name))
@@ -281,6 +306,7 @@ func init() {
 		setup := func(t string) {
 			tier = t
 			base = lx.NewFullEnv()
+			c02installKeep(base)
 			if _, err, p := lx.Eval(nil, lx.MustRead(c02prelude), base); err != nil || p != nil {
 				panic(fmt.Sprint("c02 prelude: ", err, p))
 			}
